@@ -25,7 +25,7 @@ MUTANTS = [
     m("c15-worker-no-put", "R2", "            if isinstance(exception, KeyboardInterrupt):\n                iter_queue.put(exception)\n                break\n", "            if isinstance(exception, KeyboardInterrupt):\n                break\n"),
     m("c15-parent-raises-on-item", "R2", "                    elif isinstance(iter_queue_item, KeyboardInterrupt):\n                        exception = iter_queue_item\n                        break\n", ""),
     m("c15-parent-handler-reraises", "R2", "            # Interrupts handled in child processes therefore ignore here\n            exception = e\n", "            # Interrupts handled in child processes therefore ignore here\n            exception = e\n            raise\n"),
-    m("c15-stage-loop-continues", "R2", "                    if isinstance(exception, KeyboardInterrupt):\n                        return MCMCSampleChainsOutputs(chain_states, traces, stats)\n", ""),
+    m("c15-stage-loop-continues", "R2", "                    if isinstance(exception, KeyboardInterrupt):\n                        # Adaptation in an interrupted stage is incomplete (possibly for\n                        # only some of the chains) so adapters are not finalized\n                        return MCMCSampleChainsOutputs(chain_states, traces, stats)\n", ""),
     m("c15-twin-seq-elif", None, "        if not isinstance(exception, AdaptationError):\n            chain_outputs.append(outputs)\n        # If returned handled exception was a manual interrupt break and return\n        if isinstance(exception, KeyboardInterrupt):\n            break\n", "        if isinstance(exception, KeyboardInterrupt):\n            chain_outputs.append(outputs)\n            break\n        if not isinstance(exception, AdaptationError):\n            chain_outputs.append(outputs)\n", twin=True),
     m("c15-twin-catch-base", None, H, H.replace("except KeyboardInterrupt as e", "except (KeyboardInterrupt, SystemExit) as e"), twin=True),
     m("c15-memmap-fill-only-floats", "R5", "    memmap[:] = default_val\n", "    if np.issubdtype(memmap.dtype, np.inexact):\n        memmap[:] = default_val\n", key="fill-not-on-every-path"),
